@@ -62,8 +62,12 @@ def behaviour_letters(repo, sid):
             if isinstance(c, ast.Name):
                 ds = [d.node for d in rd.defs(c.id, rd.stmt_of(n)) if d.node is not None]
                 c = ds[0] if len(ds) == 1 else c
-            if isinstance(c, (ast.List, ast.Tuple, ast.Set)):
-                found.append({e.value for e in c.elts if isinstance(e, ast.Constant) and isinstance(e.value, str)})
+            try:
+                v = Ev(repo).ev(c, {"self": Obj(sid, {}), "__mod__": sid.mod}, sid.mod)
+            except AnalysisError:
+                continue
+            if isinstance(v, ListV) and all(x is NONE or (isinstance(x, Str) and x.is_lit()) for x in v.items):
+                found.append({x.text() for x in v.items if x is not NONE})
     if len(found) != 1:
         raise AnalysisError("ScenarioID.__init__: validator of obstacle_behavior not found")
     if any(len(x) != 1 for x in found[0]):
@@ -232,24 +236,50 @@ def run(repo, res, tier):
     sid_sym = Sym("scenario_id", lang=[(gram.alphabet(), 1, MAXREP)])
     ver_sym = Sym("scenario_version", lang=[(frozenset(string.ascii_lowercase + string.digits), 1, MAXREP)])
 
+    wr = repo.cls(SO, "CommonRoadSolutionWriter")
+    for need in ("_serialize_solution", "_create_root_node", "_create_trajectory_node"):
+        if need not in wr.methods:
+            raise AnalysisError("CommonRoadSolutionWriter.%s missing" % need)
+
     def roundtrip(triples):
-        """print the benchmark id of a solution with these (model, type, cost) and read it back"""
+        """write a solution with these (model, type, cost) — benchmark id and one trajectory node per planning problem,
+        in the writer's order — and read it back"""
         sols = {}
+        # planning problem ids are deliberately not in insertion order
+        ids = [(7 * (i + 2)) % 5 + 10 * (len(triples) - i) for i in range(len(triples))]
         for i, (m, t, c) in enumerate(triples):
-            sols[i + 1] = Obj(pps, {"planning_problem_id": i + 1, "vehicle_model": m, "vehicle_type": t, "cost_function": c})
+            sols[ids[i]] = Obj(pps, {"planning_problem_id": ids[i], "vehicle_model": m, "vehicle_type": t, "cost_function": c, "trajectory": Ctor("trajectory_of_%d" % ids[i], {}), "trajectory_type": Ctor("trajectory_type_of_%d" % ids[i], {})})
         scen = Obj(None, {"__str__": S(sid_sym), "scenario_version": S(ver_sym)})
         s_obj = Obj(sol, {"_planning_problem_solutions": DictV(sols), "scenario_id": scen})
         ev = Ev(repo)
-        bid = ev.getattr(s_obj, "benchmark_id", sol.node, smod)
-        nodes = [Ctor("trajectory_node_%d" % i, {}) for i in range(len(triples))]
+        written = {}
+
+        def root_stub(a):
+            written["benchmark_id"] = ev.getattr(a["solution"], "benchmark_id", sol.node, smod)
+            return ListV([])
+
+        ev.stubs["CommonRoadSolutionWriter._create_root_node"] = root_stub
+        ev.stubs["CommonRoadSolutionWriter._create_trajectory_node"] = lambda a: Ctor("trajectory_node", dict(a))
+        nodes = ev.call_fn(ev.getattr(ClassRef(wr), "_serialize_solution", wr.node, smod), [s_obj], {}, wr.node)
+        bid = written.get("benchmark_id")
+        def node_parts(n):
+            """(planning problem id, trajectory) a trajectory node was created from, whatever the parameters are called"""
+            ints = [v for v in n.args.values() if isinstance(v, int) and not isinstance(v, bool) and v in sols]
+            trs = [v for v in n.args.values() if isinstance(v, Ctor) and v.name.startswith("trajectory_of_")]
+            if len(ints) != 1 or len(trs) != 1:
+                raise AnalysisError("CommonRoadSolutionWriter._create_trajectory_node: planning problem id / trajectory argument not recognised")
+            return ints[0], trs[0]
+
+        if bid is None or not isinstance(nodes, ListV) or not all(isinstance(n, Ctor) for n in nodes.items):
+            raise AnalysisError("CommonRoadSolutionWriter._serialize_solution: root node / trajectory nodes not recognised")
         ev2 = Ev(repo, opaque_calls={"ScenarioID.from_benchmark_id"})
         ev2.stubs["CommonRoadSolutionReader._parse_header"] = lambda a: TupV([bid, NONE, NONE, NONE])
-        ev2.stubs["CommonRoadSolutionReader._parse_trajectory"] = lambda a: TupV([Ctor("pp_id", {"of": a.get("trajectory_node")}), Ctor("trajectory", {"of": a.get("trajectory_node")})])
+        ev2.stubs["CommonRoadSolutionReader._parse_trajectory"] = lambda a: TupV(list(node_parts([v for v in a.values() if isinstance(v, Ctor)][0])))
         target = ev2.getattr(ClassRef(rdr), "_parse_solution", rdr.node, smod)
-        r = ev2.call_fn(target, [ListV(nodes)], {}, rdr.node)
-        return bid, nodes, r
+        r = ev2.call_fn(target, [nodes], {}, rdr.node)
+        return bid, sols, r
 
-    def judge(triples, bid, nodes, r):
+    def judge(triples, bid, sols, r):
         bad = []
         if not (isinstance(r, Ctor) and r.name == "Solution"):
             return ["result %s" % show(r)]
@@ -259,16 +289,20 @@ def run(repo, res, tier):
         lst = r.args.get("planning_problem_solutions")
         if not isinstance(lst, ListV) or len(lst.items) != len(triples):
             return bad + ["planning problem solutions %s" % show(lst)]
-        for i, ((m, t, c), got) in enumerate(zip(triples, lst.items)):
+        seen = set()
+        for got in lst.items:
             if not (isinstance(got, Ctor) and got.name == "PlanningProblemSolution"):
-                bad.append("solution %d is %s" % (i, show(got)))
+                bad.append("a solution is %s" % show(got))
                 continue
-            for k, want in (("vehicle_model", m), ("vehicle_type", t), ("cost_function", c)):
-                if not same(got.args.get(k), want):
-                    bad.append("solution %d: %s = %s, printed from %s" % (i, k, show(got.args.get(k)), show(want)))
-            tr = got.args.get("trajectory")
-            if not (isinstance(tr, Ctor) and tr.name.startswith("trajectory") and tr.args.get("of") is nodes[i]):
-                bad.append("solution %d takes its trajectory from %s" % (i, show(tr.args.get("of") if isinstance(tr, Ctor) else tr)))
+            pid_ = got.args.get("planning_problem_id")
+            if not isinstance(pid_, int) or pid_ not in sols or pid_ in seen:
+                bad.append("planning problem id %s" % show(pid_))
+                continue
+            seen.add(pid_)
+            o = sols[pid_]
+            for k in ("vehicle_model", "vehicle_type", "cost_function", "trajectory"):
+                if not same(got.args.get(k), o.fields[k]):
+                    bad.append("planning problem %d: %s = %s, written from %s" % (pid_, k, show(got.args.get(k)), show(o.fields[k])))
         return bad
 
     bidfn = sol.props.get("benchmark_id", {}).get("get")
@@ -287,8 +321,8 @@ def run(repo, res, tier):
         for triples in cases:
             n_eval += 1
             try:
-                bid, nodes, r = roundtrip(triples)
-                bad = judge(triples, bid, nodes, r)
+                bid, sols_, r = roundtrip(triples)
+                bad = judge(triples, bid, sols_, r)
                 example = example or (bid.text() if isinstance(bid, Str) else show(bid))
             except _Raise as x:
                 bad = ["raises %s" % x.what]
